@@ -178,7 +178,9 @@ CLAIMED = {
              "context_calibrator_roundtrip, default_calibrator_roundtrip / context_list_roundtrip, and the whole-encoding theorems "
              "int_encoding_roundtrip, float_encoding_roundtrip and binary_encoding_roundtrip (every attribute, the default and "
              "all context calibrators, fixed / referenced / looked-up sizes with their adjustment) boolexpr_roundtrip with the mutual anded_roundtrip / ored_roundtrip (groups "
-             "nested to any depth within the loader's recursion budget), for match criteria in all three forms. The round trip of string encodings, parameter types, containers and "
+             "nested to any depth within the loader's recursion budget), for match criteria in all three forms. string_encoding_roundtrip covers string encodings with a single-byte codec, no "
+             "termination character and a fixed or referenced size. The round trip of the remaining string encodings "
+             "(multi-byte codecs, termination characters, looked-up sizes), of parameter types, containers and "
              "the equality of decoding is not a theorem: it is decided by the correspondence — definitions built both ways "
              "(loaded from independently written XML with units, empty descriptions, time types, unconditional inheritance; "
              "assembled from objects) go through write/load/write/load/write on model and library, every stage is compared, and "
